@@ -107,7 +107,9 @@ SPECS["C07"] = {
                    "MetricMap.Merge in all 6 permutations x both bracketings ((X+Y)+Z and X+(Y+Z)) and with MergeMaps; every one of the 13 results must satisfy "
                    "the order-free oracle: counter = sum, timer values = multiset union (compared after a sorting network, no data-dependent control flow) "
                    "with sampled counts added, set = union, every series keeps the newest timestamp, and a gauge ends with the value of a datapoint carrying "
-                   "the newest timestamp (membership, because ties may legitimately resolve either way).",
+                   "the newest timestamp (membership, because ties may legitimately resolve either way). SLOTS: three raw datapoints of one type (tag set one of two, symbolic value, "
+                   "sample rate 1 or 0.5) received with MetricMap.Receive into two consolidator-slot maps by a symbolic assignment and merged equal the same datapoints received into one "
+                   "map: counter totals, number and sum of timer values, sampled count = sum of 1/rate, set members.",
     "bounds": {"quick": "3 maps; counters/gauges: 2 tag keys; timers: 1 tag key, <= 2 values per input; sets: 1 tag key, 2 possible members",
                "thorough": "same plus timers and sets over 2 tag keys (budgeted)"},
     "outside": ["float64 rounding: sums are compared over the reals (float addition is not associative, so a bit-exact claim would be false of any implementation)",
@@ -116,9 +118,9 @@ SPECS["C07"] = {
     "assumptions": STUBS_COMMON + [MATH_NOTE, "counter values and timestamps are declared in [-2^40, 2^40] / [0, 2^40] so that no wrap term is needed"],
     "jobs": [
         {"pkg": ".", "harness": "root", "mode": "math",
-         "entries": {"quick": ["VerifC07_Counter", "VerifC07_Gauge", "VerifC07_Timer1", "VerifC07_Timer2", "VerifC07_Set", "VerifC07_Twin"],
-                     "thorough": ["VerifC07_Counter", "VerifC07_Gauge", "VerifC07_Timer1", "VerifC07_Timer2", "VerifC07_Set", "VerifC07_Twin"]},
-         "reach": {"*": ["merged"]},
+         "entries": {"quick": ["VerifC07_Counter", "VerifC07_Gauge", "VerifC07_Timer1", "VerifC07_Timer2", "VerifC07_Set", "VerifC07_SlotsCounter", "VerifC07_SlotsTimer", "VerifC07_SlotsSet", "VerifC07_Twin"],
+                     "thorough": ["VerifC07_Counter", "VerifC07_Gauge", "VerifC07_Timer1", "VerifC07_Timer2", "VerifC07_Set", "VerifC07_SlotsCounter", "VerifC07_SlotsTimer", "VerifC07_SlotsSet", "VerifC07_Twin"]},
+         "reach": {"*": ["merged"], "VerifC07_SlotsCounter": ["slots"], "VerifC07_SlotsTimer": ["slots"], "VerifC07_SlotsSet": ["slots"]},
          "twin": {"VerifC07_Twin": True},
          "limits": {"quick": {"timeout": "600s"}, "thorough": {"timeout": "3000s"}}},
     ],
@@ -206,10 +208,10 @@ SPECS["C05"] = {
     "jobs": [
         {"pkg": "./pkg/statsd", "harness": "pkg/statsd", "mode": "machine",
          "entries": {"quick": ["VerifC05_Concat_S_S", "VerifC05_Concat_S_3", "VerifC05_Concat_2_S", "VerifC05_Concat_MT_ET", "VerifC05_Concat_ET_MT", "VerifC05_Concat_ET_ET",
-                               "VerifC05_Concat_H_MT", "VerifC05_Concat_H_S", "VerifC05_Concat_MT_H", "VerifC05_Frame_4_2", "VerifC05_Frame_5_2", "VerifC05_LastGauge", "VerifC05_IgnoreHost_1_1", "VerifC05_IgnoreHost_2_1",
+                               "VerifC05_Concat_H_MT", "VerifC05_Concat_H_S", "VerifC05_Concat_MT_H", "VerifC05_Concat_S_ET", "VerifC05_Concat_ET_S", "VerifC05_Concat_3_ET", "VerifC05_Frame_4_2", "VerifC05_Frame_5_2", "VerifC05_LastGauge", "VerifC05_IgnoreHost_1_1", "VerifC05_IgnoreHost_2_1",
                                "VerifC05_IgnoreHost_3_1", "VerifC05_Alias1", "VerifC05_Alias2", "VerifC05_ConcatTwin"],
                      "thorough": ["VerifC05_Concat_S_S", "VerifC05_Concat_S_3", "VerifC05_Concat_2_S", "VerifC05_Concat_MT_ET", "VerifC05_Concat_ET_MT", "VerifC05_Concat_ET_ET",
-                                  "VerifC05_Concat_H_MT", "VerifC05_Concat_H_S", "VerifC05_Concat_MT_H", "VerifC05_Concat_3_3", "VerifC05_Concat_4_3", "VerifC05_Concat_3_4", "VerifC05_Frame_4_2", "VerifC05_Frame_5_2", "VerifC05_Frame_6_2",
+                                  "VerifC05_Concat_H_MT", "VerifC05_Concat_H_S", "VerifC05_Concat_MT_H", "VerifC05_Concat_S_ET", "VerifC05_Concat_ET_S", "VerifC05_Concat_3_ET", "VerifC05_Concat_3_3", "VerifC05_Concat_4_3", "VerifC05_Concat_3_4", "VerifC05_Frame_4_2", "VerifC05_Frame_5_2", "VerifC05_Frame_6_2",
                                   "VerifC05_LastGauge", "VerifC05_IgnoreHost_1_1", "VerifC05_IgnoreHost_2_1", "VerifC05_IgnoreHost_3_1", "VerifC05_IgnoreHost_3_2",
                                   "VerifC05_Alias1", "VerifC05_Alias2", "VerifC05_ConcatTwin"]},
          "reach": {"VerifC05_Concat_S_S": ["bad-and-good", "two-metrics"], "VerifC05_Frame_4_2": ["done"], "VerifC05_LastGauge": ["gauge"],
